@@ -167,6 +167,8 @@ def C16(ctx):
         RO.check_no_use_after_release(ctx, u, [f for f in u.functions if f.uq.startswith("frg::")])
     RHO.check_holders(ctx, uo, HOLDERS)
     RR.check_radix_dtor(ctx, ur)
+    RST.check_free_after_copies(ctx, ust)         # nothing is read from a buffer after it went back to the allocator
+    RH.check_trailing_pointer(ctx, uh)            # a node is unlinked before it is destroyed: no freed node stays reachable
     return ("Structural clauses of C16 over vector, small_vector, dyn_array, list, hash_map, basic_string, unique_ptr, "
             "unique_memory, optional, expected, variant, manual_box and the radix tree: every allocator block escapes to an "
             "owner, is returned, handed to a parameter that can own it, or is freed on every path (O1); allocating classes have "
@@ -197,6 +199,7 @@ def C18(ctx):
     for nb in sizes:
         u = need_unit(ctx, "bits", extra_flags=("-DFRG_VERIF_BITS=%d" % nb,), tag="N%d" % nb)
         RBI.check_C18(ctx, u, nb)
+    RBI.check_concat(ctx, u)
     return ("Structural clauses of C18: constant subscripts of array within bounds; bitset constructors initialise every "
             "word and mask; dirty word writes are followed by mask_last_bit(); shift operators bound the shift amount before "
             "any dependent access; all shift counts within the operand width; no unconditional self-recursion; bit-reference "
@@ -301,6 +304,7 @@ def C01(ctx):
 def C02(ctx):
     u = need_unit(ctx, "slab")
     RS2.check_C02(ctx, u)
+    RS2.check_stale_after_remove(ctx, u)
     return ("Structural clauses of C02: null/zero special cases and null tests before any header dereference; copy-then-free "
             "order and provenance of the copy length in realloc's fallback; in-place success only when the size fits; a new slab "
             "only when the bucket has no head; full-test before push and re-insertion in free. Not decided: byte equality of "
